@@ -3,6 +3,7 @@ package checks
 import (
 	"encoding/json"
 	"fmt"
+	"hash/fnv"
 	"reflect"
 	"sort"
 	"strings"
@@ -486,7 +487,11 @@ func c04Wire(lw *listWorld, w *c04Write, ack bool) ([]byte, []rig.Update, model.
 	}
 	var cmds []model.CmdType
 	for i := range us {
-		us[i].PartialFirst = mc%2 == 1 // the order of the two filters of one command carries no meaning
+		// the order of the two filters of one command carries no meaning; drawn from the content, not from the
+		// parity of the counter (which a regular history keeps in lockstep with the shape)
+		h := fnv.New32a()
+		h.Write([]byte(us[i].String()))
+		us[i].PartialFirst = (h.Sum32()^uint32(mc>>1))&1 == 1
 		cmd := li.Cmd(us[i])
 		if w.emptySel {
 			for k := range cmd.Filter {
